@@ -103,11 +103,27 @@ func (v IV) exact() bool {
 	return v.lo.Cmp(mn) >= 0 && v.hi.Cmp(mx) <= 0
 }
 
-type e4err struct{ msg string }
+type e4err struct {
+	msg    string
+	refute bool // the construct contradicts the property (not merely outside the idiom family)
+}
 
 func (e e4err) Error() string { return e.msg }
 
-func e4fail(format string, args ...any) error { return e4err{fmt.Sprintf(format, args...)} }
+func e4fail(format string, args ...any) error { return e4err{msg: fmt.Sprintf(format, args...)} }
+
+func e4refute(format string, args ...any) error {
+	return e4err{msg: fmt.Sprintf(format, args...), refute: true}
+}
+
+// e4report records an E4 error as REFUTED or UNDECIDED.
+func (c *Checker) e4report(rule, inst, pos string, err error) {
+	if e, ok := err.(e4err); ok && e.refute {
+		c.refuted(rule, inst, pos, e.msg, "")
+		return
+	}
+	c.undecided(rule, inst, pos, err.Error())
+}
 
 type intEval struct {
 	pc  piece
@@ -264,7 +280,7 @@ func (ev *intEval) eval(t *Term) (IV, error) {
 			c = new(big.Int).Lsh(big.NewInt(1), uint(c.Int64()))
 		}
 		if c.Sign() <= 0 {
-			return IV{}, e4fail("division by %s (not a positive constant) in %s", c, pretty(t))
+			return IV{}, e4refute("division by %s (not a positive constant) in %s", c, pretty(t))
 		}
 		mode := mTrunc
 		if !k.Signed || t.Op == OpShr {
@@ -540,6 +556,11 @@ func (c *Checker) extractKernel(fn *ssa.Function, srcDepth, dstDepth int64) (*ke
 			if !eqInt(e.Idx, l.K) {
 				return nil, e4fail("store position is not the loop index")
 			}
+			// the kernel must be applied to every position of the common prefix (C05-R1), otherwise
+			// some samples are not converted at all
+			if !eqInt(l.Trip, specMin(src.lenT(), dst.lenT())) {
+				return nil, e4refute("the conversion loop does not cover the common prefix min(len(src), len(dst)): it runs over %s positions", pretty(canon(l.Trip)))
+			}
 			for _, ld := range elemLoads(v) {
 				if !k.sample(ld) || !eqInt(ld.Args[0], l.K) {
 					return nil, e4fail("kernel reads %s, not source sample i", pretty(ld))
@@ -555,11 +576,57 @@ func (c *Checker) extractKernel(fn *ssa.Function, srcDepth, dstDepth int64) (*ke
 				}
 				kp.conds = append(kp.conds, f)
 			}
-			k.pieces = append(k.pieces, kp)
+			k.pieces = append(k.pieces, expandIte(kp, 0)...)
 		}
 	}
 	if len(k.pieces) == 0 {
 		return nil, e4fail("no store into the destination found")
 	}
 	return k, nil
+}
+
+// expandIte turns a conditional value (a branch that was moved into a pure helper and merged back into an
+// if-then-else term) into separate kernel pieces, one per arm, with the arm's condition added.
+func expandIte(kp kernelPiece, depth int) []kernelPiece {
+	var ite *Term
+	kp.val.walk(func(x *Term) bool {
+		if ite != nil {
+			return false
+		}
+		if x.Op == OpIte {
+			ite = x
+			return false
+		}
+		return true
+	})
+	if ite == nil || depth > 6 {
+		return []kernelPiece{kp}
+	}
+	repl := func(t *Term, with *Term) *Term {
+		var rw func(*Term) *Term
+		rw = func(x *Term) *Term {
+			if x == ite {
+				return with
+			}
+			if len(x.Args) == 0 {
+				return x
+			}
+			args := make([]*Term, len(x.Args))
+			ch := false
+			for i, a := range x.Args {
+				args[i] = rw(a)
+				if args[i] != a {
+					ch = true
+				}
+			}
+			if !ch {
+				return x
+			}
+			return rebuild(x, args)
+		}
+		return rw(t)
+	}
+	a := kernelPiece{eff: kp.eff, val: repl(kp.val, ite.Args[1]), conds: append(append([]Cond{}, kp.conds...), Cond{Kind: COther, T: ite.Args[0], Orig: ite.Args[0]})}
+	b := kernelPiece{eff: kp.eff, val: repl(kp.val, ite.Args[2]), conds: append(append([]Cond{}, kp.conds...), Cond{Kind: COther, T: ite.Args[0], Orig: ite.Args[0], OrigNeg: true})}
+	return append(expandIte(a, depth+1), expandIte(b, depth+1)...)
 }
